@@ -221,6 +221,10 @@ func partAConfigs(tier string) []bfsRun {
 		{bCfg{Name: "T-archival-everything", Archival: true, Blocks: []vBlockSpec{{Height: 1, TC: tcOut, Content: cBlob}, {Height: 2, TC: tcOut, Content: cEmpty}, {Height: 3, TC: tcIn, Content: cTxBlob}},
 			Sources: ab, Queue: 1, FetchAns: []string{"blk", "err"}, SyncAns: []string{"synced", "err"}, Faults: []string{"link", "symlink", "ods-create", "q4-write"}, Avail: true,
 			GetAns: []string{"eds", "notfound", "canceled", "byz"}, Stop: true}, 18},
+		{bCfg{Name: "T-pruned-3src-4h", Blocks: []vBlockSpec{{Height: 1, TC: tcOut, Content: cBlob}, {Height: 2, TC: tcIn, Content: cTxBlob}, {Height: 3, TC: tcIn, Content: cEmpty}, {Height: 4, TC: tcIn, Content: cBig}},
+			Sources: abc, Queue: 1, FetchAns: []string{"blk", "err"}, SyncAns: []string{"synced", "syncing", "err"}}, 18},
+		{bCfg{Name: "T-archival-3src-q2-avail", Archival: true, Blocks: []vBlockSpec{{Height: 1, TC: tcOut, Content: cBlob}, {Height: 2, TC: tcIn, Content: cEmpty}, {Height: 3, TC: tcOut, Content: cTx}},
+			Sources: abc, Queue: 2, FetchAns: []string{"blk", "err"}, SyncAns: []string{"synced", "err"}, Avail: true, GetAns: []string{"eds", "deadline"}}, 18},
 		{bCfg{Name: "T-archival-window-edge", Archival: true, Blocks: []vBlockSpec{{Height: 1, TC: tcEdge, Content: cBlob}, {Height: 2, TC: tcOut, Content: cTx}},
 			Sources: ab, Queue: 1, FetchAns: []string{"blk", "timeout"}, SyncAns: []string{"synced", "slow", "err"}, Avail: true, GetAns: []string{"eds", "notfound"}, Stop: true}, 18},
 	}
@@ -417,15 +421,15 @@ func TestVerifC15(t *testing.T) {
 	rep.Set("store_fault_points_active", faultKinds)
 
 	quick := rep.Tier != "thorough"
-	deadline := rep.Deadline(75*time.Second, 17*time.Minute)
+	deadline := rep.Deadline(85*time.Second, 18*time.Minute)
 	exhaustive := true
 	out := &bOutcomes{m: map[string]int64{}}
 
 	// ---- Parts B and C first (bounded cost), then Part A with the remaining budget
 	bScripts, nContents := partBScripts(rep.Tier)
 	bDeadline := deadline
-	if quick {
-		bDeadline = time.Now().Add(20 * time.Second)
+	if quick && time.Now().Add(25*time.Second).Before(deadline) {
+		bDeadline = time.Now().Add(25 * time.Second)
 	}
 	tB := time.Now()
 	bst := runScripts(t, rep, "B", bScripts, out, bDeadline)
@@ -439,8 +443,8 @@ func TestVerifC15(t *testing.T) {
 
 	cScripts, nLayouts := partCScripts(rep.Tier)
 	cDeadline := deadline
-	if quick {
-		cDeadline = time.Now().Add(20 * time.Second)
+	if quick && time.Now().Add(25*time.Second).Before(deadline) {
+		cDeadline = time.Now().Add(25 * time.Second)
 	}
 	tC := time.Now()
 	cst := runScripts(t, rep, "C", cScripts, out, cDeadline)
@@ -463,7 +467,9 @@ func TestVerifC15(t *testing.T) {
 			rep.Set(fmt.Sprintf("part_A_run_%02d", i), map[string]any{"cfg": cfg.String(), "skipped": "budget exhausted"})
 			continue
 		}
-		runDeadline := time.Now().Add(left / time.Duration(len(runs)-i))
+		// every run may use what is left of the budget (the runs are listed small to large; a
+		// per-run share would cap a run although the budget as a whole suffices)
+		runDeadline := deadline
 		tA := time.Now()
 		st := vx.BFS(vx.BFSOpts{
 			MaxDepth: r.depth,
